@@ -192,6 +192,14 @@ func CheckC09(sc *Scenario, d Durable, rr *RunResult, where string, res *vprop.R
 				}
 				// "Only actions that were in flight, durably Running without a durable result, may be invoked again": an
 				// action durably Failed must not be invoked either.
+				// ... and so must an action whose last durable attempt ended with a permanent error: its result is durable
+				// (a permanent error is never retried), it was not "in flight without a durable result".
+				if o := d[inv.Tag]; o != nil && len(o.Attempts) > 0 {
+					if last := o.Attempts[len(o.Attempts)-1]; last != nil && !last.End.IsZero() && last.Err != nil && last.Err.Permanent {
+						res.Fail("C09/permanently-failed-action-reinvoked", "%s: the last durable attempt of %s had ended with a permanent error at the crash (status %v, %d attempts) but it was invoked again after restart\n%s", where, inv.Tag, d.status(inv.Tag), len(o.Attempts), FormatEvents(rr.Events, 40))
+						return
+					}
+				}
 				if d.status(inv.Tag) == workflow.Failed {
 					res.Fail("C09/failed-action-reinvoked", "%s: %s was durably Failed at the crash but was invoked again after restart", where, inv.Tag)
 					return
